@@ -2,13 +2,17 @@
 //!
 //! Space (all enumerated, nothing sampled):
 //!  * `roboto-chars`, `sourcesans-chars`: the two bundled fonts × ALL 4096 subsets of a
-//!    12-character set (plain Latin, scaled-composite dash, two composite-accented letters
-//!    sharing a base, space, ligature, Cyrillic simple + composite, Greek, a second code
+//!    12-character set (plain Latin, U+2264 and U+2265 — Roboto composites whose transformed
+//!    (x/y-scaled) component is FOLLOWED by another component —, two composite-accented letters
+//!    sharing a base, space, ligature, Cyrillic, Greek, a second code
 //!    point mapped to the same glyph, an unmapped CJK character, a mapped astral
 //!    character) through `truetype_subsetter::subset_font` (and, for the CFF font, also
 //!    `cff_subsetter::subset_cff_font` directly). Thorough adds two more 12-character sets.
 //!  * `bundled-large-sets`: prefixes of each font's whole repertoire (all, 3/4, 1/2, 1/4,
 //!    100 characters) — the "needs most glyphs, keep the full font" path.
+//!  * `cff-index-boundaries`: SourceSans3 character sets constructed (per-glyph charstring
+//!    sizes measured, subset-sum search) so that the rebuilt CharStrings INDEX holds exactly
+//!    254 / 255 / 256 / 65534 / 65535 / 65536 data bytes — the offSize 1→2 and 2→3 limits.
 //!  * `synthetic-gids`: synthetic TrueType fonts written by refpdf::ttf::synth (8 glyphs:
 //!    simple, empty, composite with scaled component, nested composite with 2×2 /
 //!    x-y-scale / scaled offset, point-matched composite; short|long loca;
@@ -42,16 +46,16 @@ pub const BUILT: bool = true;
 
 /// The 12-character sets (same for both bundled fonts; see `describe_chars` output in samples).
 const SET_A: [char; 12] = [
-    'A', '\u{2013}', '\u{E9}', '\u{C5}', ' ', '\u{FB01}', '\u{416}', '\u{439}', '\u{3A9}', '\u{2126}', '\u{4E2D}', '\u{1F16A}',
+    'A', '\u{2264}', '\u{E9}', '\u{C5}', ' ', '\u{FB01}', '\u{416}', '\u{2265}', '\u{3A9}', '\u{2126}', '\u{4E2D}', '\u{1F16A}',
 ];
 const SET_B: [char; 12] = [
-    'g', '\u{2014}', '\u{FC}', '\u{1EA4}', '\u{A0}', '\u{FB02}', '\u{42F}', '\u{451}', '\u{394}', '\u{2206}', '\u{FFFF}', '\u{1F16B}',
+    'g', '\u{2013}', '\u{FC}', '\u{1EA4}', '\u{A0}', '\u{FB02}', '\u{42F}', '\u{451}', '\u{394}', '\u{2206}', '\u{FFFF}', '\u{1F16B}',
 ];
 
 /// Third set (thorough): scaled-composite ≤, ñ, thin space, ffi, Ґ, ї, the µ/μ pair (one glyph in
 /// SourceSans3, simple + composite in Roboto), a private-use code, another astral code.
 const SET_C: [char; 12] = [
-    'Z', '\u{2264}', '\u{F1}', '\u{2009}', '\u{FB03}', '\u{490}', '\u{457}', '\u{3BC}', '\u{B5}', '\u{E000}', '\u{1F16C}', '\u{2DEC}',
+    'Z', '\u{2014}', '\u{439}', '\u{2009}', '\u{FB03}', '\u{490}', '\u{457}', '\u{3BC}', '\u{B5}', '\u{E000}', '\u{1F16C}', '\u{2DEC}',
 ];
 
 // ------------------------------------------------------------------------------------
@@ -503,8 +507,9 @@ fn sq(x: i16, y: i16, w: i16) -> Vec<(i16, i16, bool)> {
 const SYNTH_CHARS: [char; 8] = [' ', 'A', 'B', '\u{C9}', '\u{416}', '\u{417}', '\u{1F600}', 'Z'];
 
 /// 8 glyphs: 0 .notdef (2 contours), 1 empty, 2/3 simple, 4 composite (scaled component,
-/// instructions), 5 nested composite (2×2 with scaled offset, x/y scale), 6 point-matched
-/// composite referencing 3, 2 and 5, 7 simple.
+/// instructions), 5 nested composite (2×2 with scaled offset, then x/y scale, then a plain
+/// component: every transform form is followed by a further component somewhere — scale in
+/// glyph 6, x/y scale and 2×2 here), 6 point-matched composite referencing 3, 2 and 5, 7 simple.
 fn synth_font(long_loca: bool, short_hmtx: bool, instructions: bool, pad: bool, filler: usize) -> synth::SFont {
     use synth::*;
     let ins = |n: usize| if instructions { (0..n).map(|i| 0xB0 + (i % 8) as u8).collect() } else { Vec::new() };
@@ -540,6 +545,7 @@ fn synth_font(long_loca: bool, short_hmtx: bool, instructions: bool, pad: bool, 
                     comps: vec![
                         Comp { gid: 4, arg: Arg::XyWords(-20, 10), xform: Xform::TwoByTwo(0x4000, 0x1000, -0x0800, 0x3000), extra_flags: ttf::SCALED_COMPONENT_OFFSET },
                         Comp { gid: 0, arg: Arg::XyBytes(-5, 100), xform: Xform::XY(0x6000, 0x2000), extra_flags: ttf::UNSCALED_COMPONENT_OFFSET },
+                        Comp { gid: 2, arg: Arg::XyBytes(7, -7), xform: Xform::None, extra_flags: 0 },
                     ],
                     instructions: Vec::new(),
                 },
@@ -603,6 +609,88 @@ fn synth_cases(pad: bool, filler: usize) -> Vec<SynthCase> {
     v
 }
 
+/// Character sets of SourceSans3 whose CID-keyed subset has a CharStrings INDEX with exactly
+/// `target` data bytes, for every target around the 1-byte and 2-byte offset limits.
+/// The size each glyph contributes is measured through the library's own single-character
+/// subset (read with the reference CFF reader); a subset-sum search over one character per
+/// glyph (ascending code order, first solution) picks the set; the achieved length is then
+/// re-measured on the library's subset of the whole set and must equal the target.
+fn cff_boundary_sets(sans: &Original) -> Result<Vec<(usize, Vec<char>)>, String> {
+    let data_len = |chars: &[char]| -> Result<(usize, usize), String> {
+        let set: HashSet<char> = chars.iter().copied().collect();
+        let r = vx::guard(|| subset_cff_font(&sans.data, &set)).map_err(|p| format!("panic: {p}"))?.map_err(|e| format!("{e:?}"))?;
+        if !r.is_raw_cff {
+            return Err("subsetter fell back to the full font".into());
+        }
+        // only the CharStrings INDEX header is needed; a reader that tolerates a damaged INDEX
+        // elsewhere is not: use the strict reader, and fall back to the size formula on error
+        let c = Cff::parse(&r.font_data)?;
+        let cs = &c.charstrings;
+        Ok((cs.offsets[cs.count()] - cs.offsets[0], cs.offsets[1] - cs.offsets[0]))
+    };
+    let sub = sans.cmap.unicode_sub().ok_or("no unicode cmap")?;
+    let mut seen = HashSet::new();
+    let mut menu: Vec<(char, usize)> = Vec::new();
+    let mut notdef = None;
+    for (cp, g) in sans.cmap.mappings(sub)? {
+        if cp > 0xFFFF || !seen.insert(g) {
+            continue;
+        }
+        let Some(ch) = char::from_u32(cp) else { continue };
+        // a single-glyph measurement that fails (e.g. because the library under test is broken
+        // exactly there) just drops the character from the menu
+        if let Ok((total, nd)) = data_len(&[ch]) {
+            notdef.get_or_insert(nd);
+            if total >= nd {
+                menu.push((ch, total - nd));
+            }
+        }
+    }
+    let nd = notdef.ok_or("no character could be measured")?;
+    let mut out = Vec::new();
+    for target in [254usize, 255, 256, 65534, 65535, 65536] {
+        let want = target.checked_sub(nd).ok_or("notdef larger than target")?;
+        // first-reach subset sum with parent pointers
+        let mut parent: Vec<Option<(usize, usize)>> = vec![None; want + 1]; // (item, previous sum)
+        let mut reach = vec![false; want + 1];
+        reach[0] = true;
+        for (i, &(_, len)) in menu.iter().enumerate() {
+            if len == 0 || len > want {
+                continue;
+            }
+            for s in (len..=want).rev() {
+                if !reach[s] && reach[s - len] {
+                    reach[s] = true;
+                    parent[s] = Some((i, s - len));
+                }
+            }
+            if reach[want] {
+                break;
+            }
+        }
+        if !reach[want] {
+            return Err(format!("no character set gives {target} bytes of charstrings"));
+        }
+        let mut chars = Vec::new();
+        let mut s = want;
+        while s > 0 {
+            let (i, prev) = parent[s].ok_or("broken parent chain")?;
+            chars.push(menu[i].0);
+            s = prev;
+        }
+        chars.sort();
+        // re-measure; a library that is broken exactly at the boundary may make the strict
+        // reader fail here — then the formula value stands and the oracle run reports it
+        if let Ok((got, _)) = data_len(&chars) {
+            if got != target {
+                return Err(format!("set built for {target} bytes measures {got}"));
+            }
+        }
+        out.push((target, chars));
+    }
+    Ok(out)
+}
+
 fn subset_from_mask<T: Copy>(items: &[T], mask: usize) -> Vec<T> {
     items.iter().enumerate().filter(|(i, _)| mask >> i & 1 == 1).map(|(_, &t)| t).collect()
 }
@@ -618,7 +706,8 @@ pub fn run(rep: &mut Report) {
     }
     rep.rule(
         "case = (font, set of requested characters or glyph ids, entry point); every subset of the 12-character \
-         set / of the 8 glyph ids is enumerated; non-trivial = at least one requested item is mapped by the original \
+         set / of the 8 glyph ids is enumerated; section cff-index-boundaries targets the INDEX offSize limits: six \
+         constructed SourceSans3 sets whose rebuilt CharStrings INDEX holds exactly 254,255,256,65534,65535,65536 data bytes; non-trivial = at least one requested item is mapped by the original \
          font AND the library really produced a new font (not the unchanged input); distinct input = (font, set, entry)",
     );
     rep.assume("refpdf::ttf / refpdf::cff read fonts correctly (validated on every glyph of both bundled fonts: header bounding boxes, hmtx widths/bearings, FontBBox, checksums)");
@@ -655,6 +744,21 @@ pub fn run(rep: &mut Report) {
         let n = if frac.0 == 0 { 100 } else { all.len() * frac.0 / frac.1 };
         run_chars_case(c, orig, &all[..n], false);
     });
+
+    // ---- CFF INDEX offSize boundaries: sets whose rebuilt CharStrings INDEX holds exactly
+    // 254/255/256 and 65534/65535/65536 bytes of data (offSize must fit data length + 1)
+    let boundary = cff_boundary_sets(&sans);
+    match &boundary {
+        Ok(sets) => {
+            rep.note("cff_index_boundary_sets", json!(sets.iter().map(|(t, cs)| json!({"charstrings_data_bytes": t, "characters": cs.len()})).collect::<Vec<_>>()));
+            rep.explore("cff-index-boundaries", Explore::full(), |c: &mut Ctx| {
+                let i = c.choose("target", sets.len());
+                let direct = c.flag("direct_cff_entry");
+                run_chars_case(c, &sans, &sets[i].1, direct);
+            });
+        }
+        Err(e) => rep.machinery_error(format!("cff-index-boundaries: cannot construct the boundary sets: {e}")),
+    }
 
     // ---- synthetic fonts
     let synth_small = synth_cases(false, 0);
